@@ -145,6 +145,19 @@ class D1:
         while e[0] == "call" and e[1] in ("core::cmp::Ordering::reverse",):
             flips += 1
             e = e[2][0]
+        # a private (non-trait) helper function whose result is itself a delegated comparison is transparent
+        for _ in range(4):
+            if e[0] == "call" and e[5].rpartition("::")[0] not in CMP_TRAITS:
+                cands = self.facts.by_id.get(e[1], [])
+                if len(cands) == 1 and cands[0].kind == "fn" and cands[0].did != did:
+                    from .flow import subst_params
+                    inner = return_expr(cands[0], self.facts, inline=False)
+                    e = subst_params(inner, e[2])
+                    continue
+            break
+        while e[0] == "call" and e[1] in ("core::cmp::Ordering::reverse",):
+            flips += 1
+            e = e[2][0]
         if e[0] not in ("call", "ucall"):
             raise ValueError("result is not a single delegated comparison: %s" % fmt_expr(e))
         orig = e[5] if e[0] == "call" else e[1]
